@@ -488,7 +488,7 @@ func runC14(c *Ctx) {
 		defQ  int
 		model bool
 	}
-	var jobs []job
+	var jobs, exh []job
 	margins := []int{-1, 0, 1, 4, 9, 10, 20}
 	firstOf := map[string]bool{}
 	for _, s := range syms {
@@ -527,17 +527,18 @@ func runC14(c *Ctx) {
 				for w := 0; w <= 8*s.mw; w++ {
 					if s.kind == "1d" {
 						for _, h := range []int{0, 1, 3} {
-							jobs = append(jobs, job{c14Case{s, w, h, mg, false}, defQ, r.Chance(0.05 * c14ModelP(s, w, h, mg))})
+							exh = append(exh, job{c14Case{s, w, h, mg, false}, defQ, r.Chance(0.05 * c14ModelP(s, w, h, mg))})
 						}
 						continue
 					}
 					for h := 0; h <= 8*s.mh; h++ {
-						jobs = append(jobs, job{c14Case{s, w, h, mg, false}, defQ, r.Chance(0.004 * c14ModelP(s, w, h, 2*mg))})
+						exh = append(exh, job{c14Case{s, w, h, mg, false}, defQ, r.Chance(0.004 * c14ModelP(s, w, h, 2*mg))})
 					}
 				}
 			}
 		}
 	}
+	jobs = append(jobs, exh...) // boundary cases first, exhaustive enumeration afterwards
 	var skipped int64
 	c.Parallel(len(jobs), 16, func(i int, _ *Rng) {
 		if i&255 == 0 && !c.TimeLeft() {
@@ -550,6 +551,9 @@ func runC14(c *Ctx) {
 		j := jobs[i]
 		c14Check(c, j.k, j.defQ, j.model)
 	})
+	if c.Thorough && skipped == 0 {
+		c.res.Exhaustive = true // all sizes 0..8n x 0..8n x margins 0..20 of the smallest symbol of each writer were run
+	}
 	if skipped > 0 {
 		c.Remark(fmt.Sprintf("c14: time budget reached, %d of %d enumerated cases not run", skipped, len(jobs)))
 	}
